@@ -176,6 +176,9 @@ func init() {
 					}
 				}
 			}
+			// an authorisation rule is in force (addresses @example.com): "refused" credentials are sessions of bob@other.org,
+			// minted by a permissive twin sharing the cookie secret (a restart with changed rules)
+			cfg.EmailDomains = []string{"example.com"}
 			w, err := vpNewWorld(cfg)
 			if err != nil {
 				for _, c := range cs {
@@ -184,7 +187,27 @@ func init() {
 				return
 			}
 			defer w.close()
+			refusedCookie := ""
 			for _, c := range cs {
+				if vpS(c.In, "cred") == "refused" && refusedCookie == "" {
+					w0, err := vpNewWorld(&vpCfg{})
+					if err == nil {
+						j := vpNewJar()
+						if cb, err := w0.login(j, "bob", ""); err == nil && w0.sessionCookieEffect(cb) == "set" {
+							refusedCookie = j.header()
+						}
+						w0.close()
+					}
+					if refusedCookie == "" {
+						refusedCookie = "-"
+					}
+				}
+			}
+			for _, c := range cs {
+				if vpS(c.In, "cred") == "refused" && refusedCookie == "-" {
+					env.emit(vpOut{ID: c.ID, Err: "twin login failed"})
+					continue
+				}
 				uri := voc.text(vpSeq(c.In["path"])) + voc.text(vpSeq(c.In["query"])) + voc.text(vpSeq(c.In["frag"]))
 				req := vpReq{Method: vpS(c.In, "method"), Target: uri}
 				switch vpS(c.In, "via") {
@@ -211,6 +234,9 @@ func init() {
 				case "decoy":
 					// reverse-proxy mode is off: a forwarded URI that would match must be ignored
 					req.Header = append(req.Header, [2]string{"X-Forwarded-Uri", voc.text([]string{"sl", "a"})})
+				}
+				if vpS(c.In, "cred") == "refused" {
+					req.Cookie = refusedCookie
 				}
 				r := w.do(req)
 				obs := map[string]interface{}{"exempt": r.UpHits > 0, "class": w.classify(r), "status": r.Status}
